@@ -433,6 +433,18 @@ func runC15(w *core.W) {
 			w.Sample(genName, c.Quoted())
 		}
 	}
+	// escapes where a name is being read: whatever the scanner makes of them, a rejection is reported in the promised form
+	eiN := 0
+	for _, pre := range []string{"a", "true", "x +\nname", "$v", "\u540d", "f(a", "a.b", "'s' + q", "typeof t", "1 ? n", ""} {
+		for _, esc := range []string{"\\u0062", "\\u0041", "\\u00e9", "\\u0020", "\\u{62}", "\\u{1F600}", "\\u", "\\u00", "\\x41", "\\", "\\u0030", "\\u005f", "\\u200d", "\\uD83D", "\\u{110000}", "\\u4e2d\\u6587"} {
+			for _, suf := range []string{"", " + 1", ")", ".k", "c", "\n+ 2", "(1)"} {
+				if eiN++; w.Mine(eiN) {
+					run("escape-in-name", []byte(pre+esc+suf))
+					w.Count("escape_in_name_cases")
+				}
+			}
+		}
+	}
 	// accepted side: programs with random layout (line breaks included), corpus, token sequences
 	cfg := gen.FullSyntax()
 	r := w.RNG("prog")
